@@ -12,6 +12,7 @@
 -/
 import Basyx.Lemmas.Codec
 import Basyx.Gen.XmlTable
+import Basyx.Lemmas.Dispatch
 namespace Basyx.C04
 open Basyx.Codec Basyx.Gen.Xml
 
@@ -78,5 +79,20 @@ theorem c04_unsupported_constructables : unsupportedConstructables = ["SECURITY"
 def demoBlob : Val :=
   .node "Blob" [.list [], .none, .tok "b" false, .none, .none, .none, .list [], .list [], .list [],
                 .tok "" true, .tok "application/pdf" false]
+
+/-! ### Instances of application-defined subclasses (see `Props/C03.lean`): the XML writer dispatches with `isinstance`
+throughout (tags are fixed per serialiser function); how `object_store_to_xml_element` sorts a store's objects is regenerated. -/
+
+open Basyx.Dispatch in
+theorem c04_class_dispatch :
+    sortByOf Gen.Dispatch.xmlStoreBy = some .isinstance ∧
+    Gen.Dispatch.xmlStoreRows.map (·.1) = ["AssetAdministrationShell", "Submodel", "ConceptDescription"] ∧
+    (Gen.Dispatch.xmlStoreRows.map (·.2)).Nodup := by decide
+
+open Basyx.Dispatch in
+theorem c04_subclass_instances_sorted_alike (ns : List String) (c : PyClass)
+    (hr : ∀ n ∈ ns, ∀ r ∈ Gen.Dispatch.xmlStoreRows, r.1 ≠ n) :
+    listOf .isinstance Gen.Dispatch.xmlStoreRows (deriveMany ns c) = listOf .isinstance Gen.Dispatch.xmlStoreRows c :=
+  listOf_deriveMany _ ns c hr
 
 end Basyx.C04
